@@ -1,7 +1,7 @@
 (* Dispatcher for the filesystem-level models. *)
 From Coq Require Import List NArith ZArith Bool Arith String.
 From PyFS Require Import Base.PyStr Base.Outcome Base.Render FS.Tree FS.Monad FS.Mode FS.Base
-     FS.Mem FS.Ops FS.Ref FS.Agree FS.Props FS.Wrap FS.ReadOnly Path.PathSpec.
+     FS.Mem FS.Ops FS.Ref FS.Agree FS.Props FS.Wrap FS.ReadOnly FS.Osfs Path.PathSpec.
 Import ListNotations.
 Local Open Scope string_scope. Local Open Scope list_scope.
 
@@ -71,6 +71,8 @@ Definition sub_start : node :=
 Definition run_fs2 (name : str) (args : list str) : str :=
   let ops := decode_ops (S (List.length args)) args in
   if str_eqb name (lit "mem") then sep_by (lit " ") (run_history mem_run empty_dir ops)
+  (* the OSFS model (FS/Osfs.v over the kernel model FS/Posix.v), history from the empty directory *)
+  else if str_eqb name (lit "osfs") then sep_by (lit " ") (run_history osfs_run empty_dir ops)
   else if str_eqb name (lit "ref") then sep_by (lit " ") (ref_history (Some empty_dir) ops)
   else if str_eqb name (lit "agree_mem") then sep_by (lit " ") (agree_history empty_dir ops)
   else if str_eqb name (lit "agree_sub") then
